@@ -80,6 +80,9 @@ template <class Mesh> struct HistRun {
             if (s.n[k] != m.n(k)) return std::string("counters: n_") + kn[k] + " sut=" + std::to_string(s.n[k]) + " model=" + std::to_string(m.n(k));
             if (s.nlog[k] != m.n_logical(k)) return std::string("counters: n_logical_") + kn[k] + " sut=" + std::to_string(s.nlog[k]) + " model=" + std::to_string(m.n_logical(k));
         }
+        if (s.nhe != 2L * m.n(BE) || s.nhf != 2L * m.n(BF)) return "counters: n_halfedges/n_halffaces sut=" + std::to_string(s.nhe) + "/" + std::to_string(s.nhf);
+        if (s.nlog_he != 2L * m.n_logical(BE) || s.nlog_hf != 2L * m.n_logical(BF)) return "counters: n_logical_halfedges/halffaces sut=" + std::to_string(s.nlog_he) + "/" + std::to_string(s.nlog_hf);
+        if (s.half_del_mismatch >= 0) return "counters: is_deleted of half-entity " + std::to_string(s.half_del_mismatch % 1000000) + (s.half_del_mismatch >= 1000000 ? " (halfface)" : " (halfedge)") + " differs from its parent's";
         if (s.needs_gc != m.needs_gc()) return "counters: needs_garbage_collection sut=" + std::to_string(s.needs_gc);
         if (s.genus != m.genus()) return "counters: genus sut=" + std::to_string(s.genus) + " model=" + std::to_string(m.genus());
         if (s.deferred != m.deferred || s.fast != m.fast) return "flags: deletion mode";
@@ -651,6 +654,7 @@ template <class Mesh> struct HistRun {
         else if (k == "RESTART" || k == "ROUNDTRIP" || k == "BIG" || k == "BIG_VALENCE" || k == "SET_POS" || k == "OPEN_CELL") ow_struct = {"C06"};
         else if (k == "FAULT_LOAD") ow_struct = {"C07"};
         else if (k == "SWEEP") ow_struct = {"C18"};
+        else if (k == "RESERVE") ow_struct = {"C03", "C02"};
         else ow_struct = {"C02"};
         if (any_bu_off(r)) { ow_struct.push_back("C12"); ow_props.push_back("C12"); }
     }
@@ -696,6 +700,11 @@ template <class Mesh> struct HistRun {
         else if (k == "BIG_VALENCE") op_big_valence(r, q);
         else if (k == "OPEN_CELL") op_open_cell(r, q);
         else if (k == "OBSERVE") {}
+        else if (k == "RESERVE") {   // growth of the containers without new entities: nothing observable may change (C03: one element per entity slot)
+            size_t n = (size_t)(q.a[1] % 3 == 0 ? q.a[2] % 4 : r.m.n(q.a[0] % 4) + q.a[2] % 70);
+            switch (q.a[0] % 4) { case 0: r.mesh->reserve_vertices(n); break; case 1: r.mesh->reserve_edges(n); break; case 2: r.mesh->reserve_faces(n); break; default: r.mesh->reserve_cells(n); }
+            st.add("probe_reserve");
+        }
         else throw Inconclusive{"unknown op " + k};
         if (bu_off_before || any_bu_off(rep())) { if (std::find(ow_struct.begin(), ow_struct.end(), "C12") == ow_struct.end()) { ow_struct.push_back("C12"); ow_props.push_back("C12"); } }
     }
